@@ -376,7 +376,7 @@ static std::string unesc(const std::string& s) { std::string o; for (size_t i = 
 
 struct SolveOut { int stage; bool fresh; int status; bool ok; std::string shape, tree; std::vector<Walk> w; SolveOut() : stage(0), fresh(false), status(-1), ok(true) {} };
 struct Finding { std::string key, detail; };
-struct StratOut { std::vector<SolveOut> solves; std::vector<Finding> findings; std::map<std::string, unsigned long> counters; bool complete; StratOut() : complete(false) {} };
+struct StratOut { std::vector<SolveOut> solves; std::vector<Finding> findings; std::map<std::string, unsigned long> counters; bool complete; unsigned inconclusive; StratOut() : complete(false), inconclusive(0) {} };
 typedef std::function<void(const std::string&)> Put;
 
 static const char* const CUTN[3] = { "first", "deepest", "all" };
@@ -398,12 +398,12 @@ struct Runner {
   // solve under the logical-time watchdog; returns false when the problem must not be used any further
   bool guarded_solve(const PIP_Problem& p, int& status, const std::string& site) {
     try {
-      Weight_Guard wg((unsigned long long) hx::opt().geti("budget", 200000000L));
+      Weight_Guard wg((unsigned long long) hx::opt().geti("budget", 20000000L));
       PIP_Problem_Status s = p.solve();
-      note_weight("solve", wg.used());
+      { unsigned long long u = wg.used(); int b = 0; while (u >= 10) { u /= 10; ++b; } counter("solve_weight.1e" + std::to_string(b)); }
       status = s == OPTIMIZED_PIP_PROBLEM ? 1 : 0;
       return true;
-    } catch (const Logical_Timeout&) { finding("C07.hang.solve." + site + ":" + strat_name(strat), "logical-time budget (weight 2e8) exceeded"); }
+    } catch (const Logical_Timeout&) { counter("inconclusive.solve_budget_exceeded"); put("I\tsolve_budget_exceeded"); }   // PIP is exponential: a heavy solve is not a refutation of C07
     catch (const std::exception& e) { finding("C07.unexpected_exception.solve." + site, std::string(typeid(e).name()) + ": " + e.what()); }
     return false;
   }
@@ -585,6 +585,7 @@ static void parse_records(const std::vector<std::string>& lines, StratOut& out) 
     if (f[0] == "Z") out.complete = true;
     else if (f[0] == "F" && f.size() >= 3) { Finding x; x.key = unesc(f[1]); x.detail = unesc(f[2]); out.findings.push_back(x); }
     else if (f[0] == "C" && f.size() >= 3) out.counters[f[1]] += strtoul(f[2].c_str(), 0, 10);
+    else if (f[0] == "I") ++out.inconclusive;
     else if (f[0] == "S" && f.size() >= 8) {
       SolveOut so; so.stage = atoi(f[1].c_str()); so.fresh = f[2] == "1"; so.status = atoi(f[3].c_str()); so.ok = f[4] == "1"; so.shape = f[5]; so.tree = unesc(f[6]);
       size_t nw = strtoul(f[7].c_str(), 0, 10); bool torn = false;
@@ -609,7 +610,11 @@ static std::string san_class(const std::string& err, int status) {
   while (std::getline(in, l)) {
     size_t p;
     if (kind.empty() && (p = l.find("ERROR: AddressSanitizer: ")) != std::string::npos) { size_t b = p + 25, e = l.find_first_of(" \r\n", b); kind = l.substr(b, e == std::string::npos ? e : e - b); }
-    if (kind.empty() && (p = l.find("runtime error: ")) != std::string::npos) { kind = "ubsan"; }
+    if (kind.empty() && (p = l.find("runtime error: ")) != std::string::npos) {
+      std::string msg = l.substr(p + 15), file = l.substr(0, l.find(':')); size_t sl = file.rfind('/'); if (sl != std::string::npos) file = file.substr(sl + 1);
+      std::string what = msg.find("null pointer") != std::string::npos ? "null-pointer" : msg.find("overflow") != std::string::npos ? "overflow" : msg.find("out of bounds") != std::string::npos ? "out-of-bounds" : "other";
+      kind = "ubsan." + what + "@" + file; frame = "-";     // (stack frames depend on UBSAN_OPTIONS: not used in the key)
+    }
     if (frame.empty() && l.find(" in ") != std::string::npos && l.find("/repo/src/") != std::string::npos && l.find("#") != std::string::npos) {
       size_t b = l.find(" in ") + 4, e = l.find_first_of("( ", b); std::string fn = l.substr(b, e == std::string::npos ? e : e - b);
       size_t ns; while ((ns = fn.find("Parma_Polyhedra_Library::")) != std::string::npos) fn.erase(ns, 25);
@@ -617,7 +622,7 @@ static std::string san_class(const std::string& err, int status) {
     }
   }
   if (kind.empty()) { if (WIFSIGNALED(status)) kind = "signal" + std::to_string(WTERMSIG(status)); else kind = "exit" + std::to_string(WEXITSTATUS(status)); }
-  return frame.empty() ? kind : kind + "@" + frame;
+  return (frame.empty() || frame == "-") ? kind : kind + "@" + frame;
 }
 // Runs `body(strategy, put)` for each strategy of `group` in ONE forked child (the CPU-time alarm is re-armed per strategy).
 // Returns the index in `group` of the strategy during which the child died (group.size() if it ended normally).
@@ -831,8 +836,9 @@ static void run_case(uint64_t) {
   // reference values, once per stage
   std::vector<StageRef> ref(st.size());
   for (size_t i = 0; i < st.size(); ++i) { compute_reference(st[i], ref[i]); if (hx::st().case_tainted) return; }
-  // the six strategy runs
-  const bool fork_maxcol = hx::opt().geti("nofork", 0) == 0, fork_all = hx::opt().geti("forkall", 0) != 0; const int nstrat = hx::opt().geti("maxcol", 1) ? 6 : 3;
+  // the six strategy runs. Default: all of them in one forked child (the pinned tree also dies under PIVOT_ROW_STRATEGY_FIRST,
+  // and one fork per case costs nothing measurable); --kv inproc=1 keeps the PIVOT_ROW_STRATEGY_FIRST runs in this process.
+  const bool fork_maxcol = hx::opt().geti("nofork", 0) == 0, fork_all = hx::opt().geti("inproc", 0) == 0; const int nstrat = hx::opt().geti("maxcol", 1) ? 6 : 3;
   std::vector<StratOut> out(6);
   std::vector<int> forked;
   for (int s = 0; s < nstrat; ++s) {
@@ -852,8 +858,9 @@ static void run_case(uint64_t) {
     if (end.hang) { hx::count("child.hang"); hx::violation("C07.hang." + site, strat_name(s) + ": no answer within the CPU-time limit (a loop without abandonment checkpoint) | solves completed: " + std::to_string(done) + " | history ends as " + at.text() + " | " + end.report); }
     else { hx::count("child.crash"); hx::violation("C07.crash." + site + ":" + end.cls, strat_name(s) + " | solves completed: " + std::to_string(done) + " | history ends as " + at.text() + " | " + end.report); }
     forked.erase(forked.begin(), forked.begin() + died + 1);
+    if (end.hang) { hx::count("child.skipped_after_hang", forked.size()); forked.clear(); }   // the remaining settings share the looping code: do not pay the alarm again
   }
-  for (int s = 0; s < nstrat; ++s) for (std::map<std::string, unsigned long>::iterator c = out[s].counters.begin(); c != out[s].counters.end(); ++c) hx::count(c->first, c->second);
+  for (int s = 0; s < nstrat; ++s) { for (std::map<std::string, unsigned long>::iterator c = out[s].counters.begin(); c != out[s].counters.end(); ++c) hx::count(c->first, c->second); hx::st().inconclusive += out[s].inconclusive; }
   // findings raised by the runs themselves (C13 / C15 / OK / exceptions / logical hangs)
   // (a finding about a copy / loaded twin does not invalidate the monitored problem itself: only C07.* findings end the case)
   bool stop = false; std::set<std::string> seen;
@@ -886,7 +893,11 @@ static void run_case(uint64_t) {
       hx::count("solves.incremental");
       Verdict v = judge_solve(S, R, *so);
       if (v.what == "harness") return;
-      if (v.bad) { std::string key = "C07.incremental_vs_fresh." + S.op + "." + v.what; if (!v.cls.empty()) key += ":" + v.cls; hx::violation(key, strat_name(s) + " | the fresh problem is right, the incrementally updated one is not | " + v.detail); return; }
+      if (v.bad) {
+        std::string key = "C07.incremental_vs_fresh." + S.op + "." + v.what;
+        const SolveOut* prev = find_solve(out[s], si - 1, false);     // triage class: what the tree looked like before the update
+        std::string pc = !prev ? "prior-unknown" : prev->status == 0 ? "prior-unfeasible" : prev->shape.find("A0") == std::string::npos ? "prior-tree-has-artificials" : prev->shape.find("D0") == std::string::npos ? "prior-tree-has-decisions" : "prior-tree-plain";
+        key += ":" + pc; if (!v.cls.empty()) key += "," + v.cls; hx::violation(key, strat_name(s) + " | the fresh problem is right, the incrementally updated one is not | " + v.detail); return; }
     }
     // differential where the reference was inconclusive
     for (size_t vi = 0; vi < R.vals.size(); ++vi) if (R.vals[vi].ctx && R.vals[vi].st == ilp::CAP) {
